@@ -211,3 +211,33 @@ PROPS["C01"] = {
     "theorem_status": {"C01_unmarshal_block_typed_iff": "proved", "C01_marshal_block_typed_iff": "proved", "C01_blocks_typed": "proved",
                        "C01_generic_wrapper_condition": "proved", "C01_blocks_generic_refuted": "refuted full statement for optional: generic (witness Option[I]) - open finding F-C01-1"},
 }
+
+RT_TRUSTED = CONV_TRUSTED + [
+    "encoding/json itself (scanner, reflection walk, RawMessage) is third-party code: Rt/JsonDecode.v models the part the generated code relies on (exact-then-case-folded key match, null rules per kind, last duplicate key wins, RawMessage capture) and is compared with the real library on every decoded input of every run",
+    "bytes that are not JSON are rejected by encoding/json's scanner before generated code runs; the theorems start at parsed JSON values (numbers are compared by identity and integrality only)",
+    "the runner (harness/props/rt/modsrc.go) compiles every generated package with a reflection dumper that prints the decoded Go value; the dump cannot tell a nil pointer from a nil interface",
+    "the reference executor (harness/props/rt/exec.go) is an independent implementation of CollectFields with type conditions, response-key merging and @skip/@include on the EMITTED document",
+    "the flag wrapper_hides_method of the model is `true` because unmarshal.go.tmpl embeds both *T and graphql.NoUnmarshalJSON in its first-pass wrapper: gen/consts2v reads that from the template on every run",
+]
+PROPS["C19"] = {
+    "coq": ["Properties/C19.v", "Corr/Rtcorr.v"],
+    "trusted": RT_TRUSTED,
+    "assumptions": ["'never loops' is stated on the fuel-indexed model as 'never Panic'; the real decoder's termination on every explored input is observed under a watchdog in a separate process"],
+    "level_text": "Theorems over EVERY typemap, Go type, JSON value and depth: the generated decoders (struct UnmarshalJSON first/second pass, per-depth fill loops, __unmarshal<Interface> helpers) and the encoding/json fragment under them return a value or an error and never reach a panic site; without the method-hiding wrapper every non-null object would recurse forever (so the wrapper flag read from the template is load-bearing); a successfully decoded abstract value holds an implementation whose GraphQL type IS the response's __typename, decoded from the same object; missing, null, empty, non-string or unknown __typename and non-object values are errors. Tied to the templates and to encoding/json by decoding conformant and mutated responses with the compiled generated code of random programs and comparing every outcome (value dump / error / panic) with the model in-kernel.",
+    "level_note": "partial: raw non-JSON bytes and the subscription forwarder are explored (recover + watchdog), not modelled; termination is observed, the theorem is panic-freedom for every fuel.",
+    "theorem_status": {"C19_no_panic": "proved", "C19_wrapper_is_needed": "proved", "C19_dispatch_is_by_typename": "proved",
+                       "C19_missing_typename_is_an_error": "proved", "C19_empty_or_null_typename_is_an_error": "proved",
+                       "C19_unknown_typename_is_an_error": "proved", "C19_scalar_or_list_for_an_abstract_value_is_an_error": "proved",
+                       "C19_witness": "proved (non-vacuity)"},
+}
+PROPS["C02"] = {
+    "coq": ["Properties/C02.v", "Corr/Rtcorr.v"],
+    "trusted": RT_TRUSTED,
+    "assumptions": ["which Go field the documented naming rule assigns to a response key is decided by the oracle (judge.go: tag or premarshal tag of a field in the struct or any embedded struct); the theorems speak about the field the key RESOLVES to in the decoder"],
+    "level_text": "Theorems: a decoded abstract value holds the struct generated for the response's __typename (same object decoded as that struct); in encoding/json's struct loop the value under a key is decoded into the field the key resolves to and is what that field holds at the end unless a later key resolves to the same field, unknown keys are ignored; nulls give nil pointer / nil slice / untouched interface, scalar and struct; and the statement's 'nulls become nil slices' is REFUTED for lists of abstract or custom-unmarshaled values (make([]T, 0): known finding). Success on every conformant response, readability in embedded fragment structs and getters are decided by decoding reference-executor responses with the compiled generated code of random programs (oracle) and comparing every dump with the model in-kernel.",
+    "level_note": "partial: 'decoding a conformant response succeeds and every key is readable in every embedded fragment struct' is oracle-decided per run, not a theorem; two open findings (null list -> empty slice; keys differing only by case).",
+    "theorem_status": {"C02_abstract_value_holds_the_struct_for_its_typename": "proved", "C02_value_readable_at_its_field": "proved",
+                       "C02_unknown_keys_are_ignored": "proved", "C02_null_rules": "proved",
+                       "C02_null_list_becomes_nil_slice_refuted": "refuted part of the statement (witness by vm_compute; known finding)",
+                       "C02_null_list_mechanism": "proved", "C02_witness": "proved (non-vacuity)"},
+}
